@@ -807,6 +807,7 @@ def c04_exit_order(ctx, M):
 
 def c05_gate(ctx, M):
     nkeep = ndrop = 0
+    classes = {}
     for r in ok_rows(M):
         pe = parser_event(ctx, r)
         if pe is None:
@@ -830,6 +831,9 @@ def c05_gate(ctx, M):
             res = e.get("result")
             if res is not None and r.o.cons.known.get(res) is not None:
                 cmp_true = (e, r.o.cons.known.get(res))
+        cls = "If-Range=%s etag=%s etag-form=%s comparator=%s -> %s" % (ifr, etag, etag_form if ifr == "Some" else "-",
+                                                                        cmp_true[1] if cmp_true else "-", "Range kept" if is_range else "Range dropped")
+        classes[cls] = classes.get(cls, 0) + 1
         must_keep = (ifr == "None") or (ifr == "Some" and etag == "Some" and cmp_true is not None and cmp_true[1] == 1)
         date_free = any(isinstance(t, tuple) and t[0] in ("eq",) and "parse_http_date" in fmt_term(t) and v == 1 for t, v in r.o.cons.known.items())
         if must_keep:
@@ -851,6 +855,8 @@ def c05_gate(ctx, M):
             sa, sb = fmt_term(a), fmt_term(b)
             if not (("IF_RANGE" in sa and "etag" in sb) or ("IF_RANGE" in sb and "etag" in sa)):
                 ctx.violation("C05.R2", "C05.R2|comparator-args", "the gate comparator is not applied to (If-Range value, entity ETag): %s, %s" % (sa[:80], sb[:80]), where=where(e))
+    for cls, n in sorted(classes.items()):
+        ctx.ok("C05.R1", "gate row: " + cls, detail={"paths": n})
     ctx.ok("C05.R1", "If-Range gate table", detail={"keep_rows": nkeep, "drop_rows": ndrop})
     ctx.floor("C05.R1", min(nkeep, ndrop), 2, what="keep / drop rows of the If-Range gate")
     # R2: the comparator is strong
@@ -1027,6 +1033,7 @@ def c15_pairing(ctx, M):
         if r.method in ("GET", "HEAD"):
             groups.setdefault((_atoms_wo_method(r), tuple(sorted((k, fmt_term(t), str(v)) for k, t, v in r.other if "arg2" not in fmt_term(t)[:30]))), []).append(r)
     npairs = 0
+    bystatus = {}
     for key, rs in groups.items():
         gets = [r for r in rs if r.method == "GET"]
         heads = [r for r in rs if r.method == "HEAD"]
@@ -1039,6 +1046,7 @@ def c15_pairing(ctx, M):
         for g in gets:
             for h in heads:
                 npairs += 1
+                bystatus[(g.status, g.body["kind"])] = bystatus.get((g.status, g.body["kind"]), 0) + 1
                 bad = []
                 if g.status != h.status:
                     bad.append("status %s vs %s" % (g.status, h.status))
@@ -1056,6 +1064,8 @@ def c15_pairing(ctx, M):
                 if bad:
                     ctx.violation("C15.R1", "C15.R1|mismatch|%s|%s" % (g.status, bad[0].split(":")[0][:30]),
                                   "HEAD differs from GET for the same request: %s" % "; ".join(bad), where=row_where(h))
+    for (stt, bk), n in sorted(bystatus.items(), key=lambda kv: str(kv[0])):
+        ctx.ok("C15.R1", "GET %s (%s body) / HEAD pairs: equal status and header list" % (stt, bk), detail={"pairs": n})
     ctx.ok("C15.R1", "every GET path has a HEAD twin with equal status and headers", detail={"pairs": npairs, "groups": len(groups)})
     ctx.floor("C15.R1", npairs, 50, what="GET/HEAD row pairs")
     # R2: HEAD never asks the entity for bytes
